@@ -63,7 +63,8 @@ impl Report {
         }
     }
     pub fn violation(&mut self, class: &str, clause: &str, input: &str, expected: &str, observed: &str) {
-        if self.only_panics && !(class.contains("panic") || observed.contains("PANIC") || class == "coeff-slope-radicand-negative" || class == "coeff-nonfinite") {
+        if self.only_panics && !(class.contains("panic") || observed.contains("PANIC") || class == "coeff-slope-radicand-negative" || class == "coeff-nonfinite"
+            || (class == "coeff-alpha-exceeds-f64-precision" && (observed.contains("inf") || observed.contains("NaN")))) {
             return; // C20 is about panics (and non-finite builder output) only; value clauses belong to the other properties
         }
         self.nviol += 1;
@@ -638,7 +639,10 @@ fn c10(rng: &mut Rng, thorough: bool, hints: &[Vec<String>], rep: &mut Report) {
         rep.distinct += 1;
         if let Some(b) = bad {
             // known class: the target level is so close to full scale that the (<= 5%) overshoot leaves the i32 range
-            let class = if (to as i64).abs() as f64 >= 0.95 * 2147483648.0 {
+            // the (<= 5 %) overshoot of the step, or the truncation error at a level within 2 % of full scale,
+            // takes the ideal response beyond the i32 range
+            let peak = to as f64 + 0.05 * (to as f64 - from as f64);
+            let class = if peak.abs() >= 0.98 * 2147483648.0 || (to as i64).abs() as f64 >= 0.98 * 2147483648.0 {
                 "lp2-overflow-overshoot-beyond-i32"
             } else {
                 "lp2-wrap"
@@ -2501,7 +2505,10 @@ fn c09(rng: &mut Rng, thorough: bool, _hints: &[Vec<String>], rep: &mut Report) 
             // steep slope at large |log shelf|: the cookbook radicand is negative
             let a = shelf.sqrt();
             let steep = sk == 2 && sv * (a - 1.0) * (a - 1.0) >= (shelf + 1.0) * (1.0 - 1e-9);
-            rep.violation(if steep { "coeff-slope-radicand-negative" } else { "coeff-nonfinite" }, "finite coefficients for in-range parameters", &inp, "finite", &format!("{:?}", ba));
+            // bandwidths of tens of octaves: sinh overflows f64 (same root cause as the precision finding)
+            let sinh_arg = std::f64::consts::LN_2 / 2.0 * sv * w0 / w0.sin();
+            let huge = sk == 1 && sinh_arg > 36.0;
+            rep.violation(if steep { "coeff-slope-radicand-negative" } else if huge { "coeff-alpha-exceeds-f64-precision" } else { "coeff-nonfinite" }, "finite coefficients for in-range parameters", &inp, "finite", &format!("{:?}", ba));
             continue;
         }
         let qi = {
